@@ -258,14 +258,14 @@ def monitor_lines(prog, answers):
 
 def run_all(h, progs):
     flat = [l for p in progs for l in p]
-    impl, rc, err = vlib.run_lines([str(h)], flat)
+    impl, rc, err = vlib.run_lines([str(h)], flat, timeout=14400)
     return flat, impl, rc, err
 
 
 def judge(progs, answers):
     """run the Lean monitor over per-program answers; returns list of verdict strings"""
     ml = [l for p, a in zip(progs, answers) for l in monitor_lines(p, a)]
-    out, rc, err = vlib.run_model("C03", ml)
+    out, rc, err = vlib.run_model("C03", ml, timeout=14400)
     return out if len(out) == len(progs) else None
 
 
@@ -317,7 +317,7 @@ def check_programs(res, pid, h, progs, broken):
     if not impl:
         res.violation("empty run: the harness answered nothing for %d op lines" % len(flat), {}, False, key="empty-run")
         return
-    model, rc2, err2 = vlib.run_model("C03", flat)
+    model, rc2, err2 = vlib.run_model("C03", flat, timeout=14400)
     ia, ma = split(progs, impl), split(progs, model)
     if ia is None or ma is None or rc2 != 0:
         res.violation("driver/harness protocol failure lines %d/%d/%d rc=%d %s" % (len(flat), len(impl), len(model), rc2, err2[-300:]), {}, False, key="protocol")
@@ -427,7 +427,7 @@ def big_section_witness(res, tier):
     cases = [("x64", 0x80000000)] if tier == "quick" else [("x64", 0x7FFFFFF0), ("x64", 0x80000000), ("x64", 0x80000010), ("a64", 0x8000000), ("a64", 0x7FFFFFC)]
     n = 0
     for arch, dist in cases:
-        p = vlib.sh([str(hb), arch, "%x" % dist], timeout=900, env={"ASAN_OPTIONS": "detect_leaks=0"})
+        p = vlib.sh([str(hb), arch, "%x" % dist], timeout=7200, env={"ASAN_OPTIONS": "detect_leaks=0"})
         w = dict(x.split("=", 1) for x in p.stdout.split() if "=" in x)
         if p.returncode != 0 or "offset" not in w:
             res.violation("big-section witness %s %x did not run (rc=%d %s)" % (arch, dist, p.returncode, (p.stdout + p.stderr)[-300:]),
@@ -464,7 +464,7 @@ def replay(data):
     if ops and ops[0].startswith("bigsite"):
         _, arch, dist = ops[0].split()
         hb = vlib.build_harness("c03big")
-        p = vlib.sh([str(hb), arch, dist], timeout=900, env={"ASAN_OPTIONS": "detect_leaks=0"})
+        p = vlib.sh([str(hb), arch, dist], timeout=7200, env={"ASAN_OPTIONS": "detect_leaks=0"})
         print(p.stdout.strip())
         w = dict(x.split("=", 1) for x in p.stdout.split() if "=" in x)
         if int(w.get("err_branch", "1")) != 0:
